@@ -7,6 +7,7 @@ import (
 	_ "github.com/bandprotocol/chain/v3/zzverif/props/c05"
 	_ "github.com/bandprotocol/chain/v3/zzverif/props/c07"
 	_ "github.com/bandprotocol/chain/v3/zzverif/props/c10"
+	_ "github.com/bandprotocol/chain/v3/zzverif/props/c11"
 	_ "github.com/bandprotocol/chain/v3/zzverif/props/c12"
 	_ "github.com/bandprotocol/chain/v3/zzverif/props/c13"
 	_ "github.com/bandprotocol/chain/v3/zzverif/props/c16"
